@@ -335,18 +335,17 @@ def run(ctx, prog):
     okp = [p for p in paths if p.kind == 'return' and p.is_ok()]
 
     def r_fb(p):
+        """an accepted builder either carries no JWK (the data variant was examined and is another one) or its JWK answered
+        is_public() == true; `!is_private()` is not evidence (a partial RSA private set is neither public nor private)"""
         md = prog.enums.get('MethodData') or {}
-        ip = [c for c in p.find_calls(r'Jwk::is_public$')]
-        # find the data operand: any term whose downcast PublicKeyJwk was taken on this path
-        for k_, var in list(ex.symvars.items()):
-            if k_[0] != 'd' or 'builder' not in k_[1]:
-                continue
-            if 'PublicKeyJwk' in md and p.implies(var == md['PublicKeyJwk']):
-                ok_ = [c for c in ip if 'PublicKeyJwk' in term_str(c.args[0]) and p.took(c.ret, 'true')]
-                return None if ok_ else 'method with JWK material built without is_public() being true'
-        # data is not a JWK on this path (or not examined at all)
-        examined = any(k_[0] == 'd' and 'builder' in k_[1] and any(p.implies(var == i) for i in md.values()) for k_, var in ex.symvars.items())
-        return None if examined else 'key material kind not examined'
+        if any(p.took(c.ret, 'true') and 'builder' in term_str(c.args[0]) for c in p.find_calls(r'Jwk::is_public$')):
+            return None
+        di = prog.structs['MethodBuilder'].index('data')
+        opt = ('field', ('leaf', 'builder'), di, '')
+        d = ex.discr_var(('field', opt, 0, 'Some'))
+        if 'PublicKeyJwk' in md and p.implies(d != z3.BitVecVal(md['PublicKeyJwk'], 64)):
+            return None
+        return 'method built without establishing that its JWK material is public (is_public() == true)'
     A.require('VerificationMethod::from_builder/rejects-private-jwk', okp, r_fb, replay=R('[method]'))
 
 
